@@ -12,7 +12,7 @@ LEVEL = "model_checking"
 CODE = ["yowsup/layers/noise/layer_noise_segments.py:YowNoiseSegmentsLayer.receive",
         "yowsup/layers/noise/layer_noise_segments.py:YowNoiseSegmentsLayer.send"]
 BOUNDS = {"quick": "streams of k<=3 frames cut into m<=3 chunks (every frame length 1..2^24-1, every cut position); "
-                   "step harness: 1 pending + <=2 whole frames + partial next; send: every length 0..2^25",
+                   "step harness: 1 pending + <=2 whole frames + partial next; send: every length 0..2^25; consumer failing on one delivery (k<=3 frames, m<=2 chunks)",
           "thorough": "streams of k<=4 frames cut into m<=5 chunks; same step and send harnesses"}
 OUTSIDE = ["streams with more frames/chunks than the bound are covered only through the step harness, which assumes the "
            "layer's only state is its read buffer (checked structurally on each run)",
@@ -102,6 +102,42 @@ def h_stream(ctx, k, m):
     return obs
 
 
+class ConsumerFault(Exception):
+    pass
+
+
+def h_consumer_fault(ctx, k, m):
+    """the layer above fails while it handles one of the frames (solver's choice): the frames handed upward, over the whole stream, are
+    still exactly the frames the peer sent -- each at most once, in order, and every frame after the failed hand-over exactly once"""
+    layer, up, down = _layer(True)
+    ns, payloads, stream = _frames(ctx, k)
+    total = H.length_of(stream)
+    bounds = _cuts(ctx, total, m)
+    fail_at = ctx.choice("failing_delivery", list(range(k)))
+    seen = []
+
+    def consumer(frame):
+        seen.append(frame)
+        if len(seen) - 1 == fail_at:
+            raise ConsumerFault("upper layer failed on delivery %d" % fail_at)
+    layer.toUpper = consumer
+    rest = stream
+    raised = 0
+    for i in range(m):
+        ln = bounds[i + 1] - bounds[i]
+        chunk, rest = rest[:ln], rest[ln:]
+        try:
+            layer.receive(chunk)
+        except ConsumerFault:
+            raised += 1
+    # one more (empty-handed) call cannot exist: the network layer only calls with data; a later chunk is what flushes
+    obs = [("the consumer's failure is reported once", raised == 1 or len(seen) <= fail_at)]
+    obs.append(("no frame is handed upward twice and none is invented (%d deliveries for %d frames)" % (len(seen), k), len(seen) <= k))
+    for j in range(min(k, len(seen))):
+        obs.append(("delivery %d is frame %d, intact" % (j, j), H.rope_eq(seen[j], payloads[j])))
+    return obs
+
+
 def _is_bytes(x):
     if isinstance(x, SymSeq):
         return x.kind == "bytes"
@@ -171,6 +207,8 @@ def cases(tier):
     for k, m in km:
         cs.append(dict(name="stream[k=%d,m=%d]" % (k, m), fn=h_stream, args=(k, m), weight=(k + 1) ** m,
                        timeout_s=120 if tier == "quick" else 2400, max_paths=200000))
+    for k, m in ((2, 1), (2, 2), (3, 2)) if tier == "quick" else ((2, 1), (2, 2), (3, 2), (3, 3), (4, 2)):
+        cs.append(dict(name="consumer-fault[k=%d,m=%d]" % (k, m), fn=h_consumer_fault, args=(k, m), weight=(k + 1) ** m, timeout_s=120 if tier == "quick" else 2400, max_paths=200000))
     for w in (0, 1, 2):
         cs.append(dict(name="step[whole=%d]" % w, fn=h_step, args=(w,), weight=30 * (w + 1), timeout_s=120 if tier == "quick" else 1200))
     cs.append(dict(name="send[enabled]", fn=h_send, args=(True,)))
